@@ -577,7 +577,13 @@ class NDNApp:
         else:
             deadline += DEFAULT_LIFETIME
         node.append_interest(future, deadline, interest_param, validator, implicit_sha256)
-        self.face.send(raw_interest)
+        try:
+            self.face.send(raw_interest)
+        except BaseException:
+            # Not sent: the caller gets the error, and nothing of this Interest stays pending
+            if node.timeout(future) and self._pit.get(node_name) is node:
+                del self._pit[node_name]
+            raise
         # The caller may start to await the result much later (or never): the lifetime has a timer of its own
         # (on the loop's clock: a step of the system clock does not change how long the lifetime is)
         lifetime = interest_param.lifetime if interest_param.lifetime is not None else DEFAULT_LIFETIME
